@@ -60,6 +60,11 @@ def one_run(ctx, g, sc, pr, lib, path, spec, form, pool_factory, fault, ref, see
     import histlib as hl
     rec = hl.Recorder(sc)
     rec.fault = fault
+    if fault is not None:
+        # workers forked from here inherit the armed injector; the parent disarms all of them after the failing
+        # call by removing this file, so that the follow-up call can run on the SAME pool
+        rec.armed_file = os.path.join(sc.root, "fault-armed")
+        open(rec.armed_file, "w").close()
     before = sc.listing()
     user_hash = hl.sha256_file(path) if path else None
     lib_before = hl.digest(hl.table_arrays(lib))
@@ -162,13 +167,11 @@ def one_run(ctx, g, sc, pr, lib, path, spec, form, pool_factory, fault, ref, see
     if fault is not None and raised is not None and ref is not None:
         try:
             j.rng = np.random.default_rng(seed2)
-            # (multi-process: the old pool's workers were forked while the injector was armed - a harness
-            #  artefact - so the same TheJoker continues on a pool forked now)
-            if hasattr(inner_pool, "terminate"):
-                inner_pool.terminate()
-                inner_pool.join()
-                inner_pool = pool_factory()
-            j.pool = inner_pool
+            # the same TheJoker on the SAME pool object (a failed call must not leave the user's pool unusable);
+            # the injector in the forked workers is disarmed through the flag file
+            if rec.armed_file and os.path.exists(rec.armed_file):
+                os.unlink(rec.armed_file)
+            ctx.count("follow-up-on-same-pool:" + ("multi" if hasattr(inner_pool, "terminate") else "serial"))
             out2 = hl.do_call(j, pr, spec, lib=lib, path=path)
             d = hl.out_diff(out2, ref)
             err = None
@@ -264,6 +267,7 @@ def post(ctx):
     ctx.require("faults raised while a temp file existed", c["faults-while-temp-file-exists"], 15)
     ctx.require("runs on a user file", c["runs-with-user-file"], 10)
     ctx.require("follow-up calls", c["follow-up-calls"], 30)
+    ctx.require("follow-up calls on the same multi-process pool", c["follow-up-on-same-pool:multi"], 3)
     ctx.require("BaseException faults", c["exc:BaseException"], 5)
     ctx.require("multi-process configurations", sum(v for k, v in c.items() if k.startswith("config:") and k.endswith(":multi")), 2)
     for e in ("rejection", "marginal", "iterative"):
